@@ -581,6 +581,9 @@ func c02Impl(c lib.Case) []string {
 			}
 			return res
 		case err := <-r.done[i]:
+			if err != nil && strings.Contains(err.Error(), "not a source runner") {
+				return "refused" // the operator turns callers away that are not runners of the deployment (repair of D69)
+			}
 			return "returned:" + c02Err(err)
 		case <-time.After(c02Wait):
 			return "timeout"
